@@ -362,10 +362,18 @@ def check_kernel(ctx, o, env, e, v, axis, ext, kexpr, key, bounds=None):
         # undecided: is it the kernel that cannot be evaluated (complex / not finite) where the truth can?
         from harness.inst import numeval
         bad = 0
+        # a face on which the mapping itself is singular (r = 0 of a polar-like patch) has no inverse Jacobian: the
+        # transformed integrand is undefined there and nothing is demanded of the kernel
+        detJ = None
+        if pdim == ldim:
+            detJ = Matrix(pdim, ldim, lambda i, j: sympy.diff(F[i], LOGI[j])).det().subs(pt)
         for _ in range(4):
             pt2 = {x: Rational(rng.randint(2, 30), rng.randint(31, 37)) for x in (coords or [LOGI[0]])}
             try:
                 numeval(truth, pt2)
+                if detJ is not None and abs(numeval(detJ, pt2)) < 1e-30:
+                    o.count('singular-face-point')
+                    continue
             except Exception:
                 continue
             try:
